@@ -1,5 +1,87 @@
-import Gobptree.Ops
-namespace Gobptree
-theorem C10_placeholder : True := trivial
-end Gobptree
-#print axioms Gobptree.C10_placeholder
+/-
+  C10 — Search/Insert/Update/NewScanner lock at most a parent and a child at a time.
+
+  Same model and tie as C09.  `kontHeld` lists, for every park position of the four
+  operations, what is held there; the theorems below read the bound off that table,
+  for every reachable configuration of every program family under every schedule.
+-/
+import Gobptree.Proofs.ConcReach
+
+namespace Gobptree.Conc
+open Gobptree
+
+variable {K V : Type}
+
+/-- park positions of Search / NewScanner / Insert / Update -/
+def Kont.isCoupled : Kont K V → Bool
+  | .roTree _ _ | .roNode _ _ _ _ | .upTree _ _ _ | .upRoot _ _ _ _ | .upRootSib _ _ _ _ _
+  | .upChild _ _ _ _ _ _ | .upSib _ _ _ _ _ _ | .upCallback _ _ _ _ => true
+  | _ => false
+
+theorem kontHeld_coupled_le (k : Kont K V) (hk : k.isCoupled = true) : (kontHeld k).length ≤ 2 := by
+  cases k <;> simp_all [Kont.isCoupled, kontHeld]
+
+/-- **C10 (coupling, at every scheduling point).** Whenever a Search, NewScanner, Insert or
+    Update waits for a lock it holds at most two: the tree-level mutex and the root, or a
+    node and — only while it waits for the sibling it has just created by splitting that
+    node's child — that child. Nothing above the parent is held: the table `kontHeld`
+    names exactly `[rootMutex]`, `[rootMutex, root]`, `[parent]`, `[parent, child]`. -/
+theorem C10_coupling_parked (P : Params K) (tree : Tree K V) (progs : List (List (COp K V)))
+    (c : Config K V) (hr : Reachable (Config.init P tree progs) c) (hd : c.dead = false)
+    (th : Thread K V) (hth : th ∈ c.threads) (l : Lk) (k : Kont K V) (hp : th.park = .want l k)
+    (hk : k.isCoupled = true) :
+    List.Perm th.held (kontHeld k) ∧ th.held.length ≤ 2 := by
+  obtain ⟨hh, hpre⟩ := reachable_ok _ c (init_ok P tree progs) hr hd th hth
+  rw [hp] at hh hpre
+  have hc : cursorLocks th.cursor = [] := by
+    cases k <;> simp_all [Kont.isCoupled, ParkPre, KontPre]
+  rw [hc] at hh
+  simp only [parkHeld, List.nil_append] at hh
+  exact ⟨hh, by rw [hh.length_eq]; exact kontHeld_coupled_le k hk⟩
+
+/-- **C10 (a running callback holds exactly one leaf).** -/
+theorem C10_callback_one_leaf (P : Params K) (tree : Tree K V) (progs : List (List (COp K V)))
+    (c : Config K V) (hr : Reachable (Config.init P tree progs) c) (hd : c.dead = false)
+    (th : Thread K V) (hth : th ∈ c.threads) (key : K) (f : Option V → V) (leaf : Nat) (arg : Option V)
+    (hp : th.park = .yielded (.upCallback key f leaf arg)) : th.held = [.node leaf] := by
+  obtain ⟨hh, hpre⟩ := reachable_ok _ c (init_ok P tree progs) hr hd th hth
+  rw [hp] at hh hpre
+  have hc : cursorLocks th.cursor = [] := hpre
+  rw [hc] at hh
+  exact List.perm_singleton.mp (by simpa [parkHeld, kontHeld] using hh)
+
+/-- **C10 (a resting cursor holds at most its one leaf).** -/
+theorem C10_resting_cursor (P : Params K) (tree : Tree K V) (progs : List (List (COp K V)))
+    (c : Config K V) (hr : Reachable (Config.init P tree progs) c) (hd : c.dead = false)
+    (th : Thread K V) (hth : th ∈ c.threads) (hp : th.park = .yielded .paused) :
+    th.held.length ≤ 1 := by
+  obtain ⟨hh, _⟩ := reachable_ok _ c (init_ok P tree progs) hr hd th hth
+  rw [hp] at hh
+  simp only [parkHeld, kontHeld, List.append_nil] at hh
+  rw [hh.length_eq]
+  unfold cursorLocks
+  split <;> simp
+
+/-- the held sets of thread `t` after each of its lock events, replaying a chronological log -/
+def heldTrace (t : Nat) : List (Ev K V) → List Lk → List (List Lk)
+  | [], _ => []
+  | .acq t' l :: rest, h => if t' = t then (h ++ [l]) :: heldTrace t rest (h ++ [l]) else heldTrace t rest h
+  | .rel t' l :: rest, h => if t' = t then (h.erase l) :: heldTrace t rest (h.erase l) else heldTrace t rest h
+  | _ :: rest, h => heldTrace t rest h
+
+/-- FULL statement of C10 ("at every instant", i.e. also INSIDE a step, where a third
+    lock — the sibling just created by a split — is held between its acquisition and the
+    release of the split child), kept as a definition and not proved; the theorems above
+    prove the bound at every scheduling point, and the intra-step lock/unlock sequences are
+    pinned against the implementation by the event-log tie. -/
+def C10_every_instant_statement : Prop :=
+  ∀ (P : Params Nat) (tree : Tree Nat Nat) (progs : List (List (COp Nat Nat))) (c : Config Nat Nat),
+    (∀ p ∈ progs, ∀ op ∈ p, match op with | .del _ => False | _ => True) →
+    Reachable (Config.init P tree progs) c → c.dead = false →
+    ∀ t, ∀ h ∈ heldTrace t c.log.reverse [], h.length ≤ 3
+
+end Gobptree.Conc
+
+#print axioms Gobptree.Conc.C10_coupling_parked
+#print axioms Gobptree.Conc.C10_callback_one_leaf
+#print axioms Gobptree.Conc.C10_resting_cursor
